@@ -245,7 +245,12 @@ func constructors() []subject {
 		}})
 		out = append(out, subject{k.name + ".MakeFromSequence(Catalog)", func(n int) (any, func(int)) {
 			src := col.Catalog[string, int](N()).MakeFromMap(mkMap(n))
-			return k.seq(src), func(pos int) { src.SetValue("new", -1); src.RemoveValue("k0"); src.SetValue("k1", -2); src.ReverseValues() }
+			return k.seq(src), func(pos int) {
+				src.SetValue("new", -1)
+				src.RemoveValue("k0")
+				src.SetValue("k1", -2)
+				src.ReverseValues()
+			}
 		}})
 		out = append(out, subject{"source Map of " + k.name + ".MakeFromSequence", func(n int) (any, func(int)) {
 			src := col.Map[string, int](N()).MakeFromMap(mkMap(n))
@@ -371,7 +376,12 @@ func accessors() []accessor {
 		ct.RemoveValue("k0")
 		ct.ReverseValues()
 	}
-	mMap := func(c any) { m := c.(col.MapLike[string, int]); m.SetValue("new", -5); m.RemoveValue("k0"); m.SetValue("k1", -6) }
+	mMap := func(c any) {
+		m := c.(col.MapLike[string, int])
+		m.SetValue("new", -5)
+		m.RemoveValue("k0")
+		m.SetValue("k1", -6)
+	}
 	keyList := func(n int) col.Sequential[string] {
 		var ks []string
 		for i := 0; i < n; i++ {
